@@ -351,6 +351,7 @@ class GAM(Core, MetaTermMixin):
         """
         y = check_y(y, self.link, self.distribution, verbose=self.verbose)
         mu = self.predict_mu(X)
+        check_X_y(mu, y)
 
         if weights is not None:
             weights = np.array(weights).astype('f').ravel()
@@ -2927,6 +2928,7 @@ class PoissonGAM(GAM):
         """
         y = check_y(y, self.link, self.distribution, verbose=self.verbose)
         mu = self.predict_mu(X)
+        check_X_y(mu, y)
 
         if weights is not None:
             weights = np.array(weights).astype('f').ravel()
